@@ -1,4 +1,4 @@
-"""python3 -m fxmc.seedtable  -> markdown table of /verif/seeded/*/meta.json (used for DESIGN.md section 12)"""
+"""python3 -m fxmc.seedtable [--update-design] -> markdown table of /verif/seeded/*/meta.json (used for DESIGN.md section 12)"""
 import json, os, re
 VERIF = os.path.dirname(os.path.dirname(os.path.abspath(__file__)))
 
@@ -21,10 +21,23 @@ def main():
             first = det[k].get("first", "").split(" @ ")[0]
             break
         rows.append((d, title or "(see notes.md)", ", ".join(by) or "-", ", ".join(miss) or "", first[:70]))
-    print("| seed | change (title from the author's notes) | detected by | ran, not detected | first violating case |")
-    print("|---|---|---|---|---|")
+    lines = ["| seed | change (title from the author's notes) | detected by | ran, not detected | first violating case |", "|---|---|---|---|---|"]
     for r in rows:
-        print("| " + " | ".join(x.replace("|", "\\|") for x in r) + " |")
+        lines.append("| " + " | ".join(x.replace("|", "\\|") for x in r) + " |")
+    text = "\n".join(lines)
+    import sys
+    if "--update-design" in sys.argv:
+        # replaces everything between the two markers in DESIGN.md section 12
+        dp = os.path.join(VERIF, "DESIGN.md")
+        d = open(dp).read()
+        a, b = "<!-- SEEDTABLE -->", "<!-- /SEEDTABLE -->"
+        if b in d:
+            d = d[:d.index(a)] + a + "\n" + text + "\n" + b + d[d.index(b) + len(b):]
+        else:
+            d = d.replace(a, a + "\n" + text + "\n" + b)
+        open(dp, "w").write(d)
+    else:
+        print(text)
 
 
 if __name__ == "__main__":
